@@ -306,6 +306,43 @@ func minimise(t *term, prefix string, budget int) (*term, verdict) {
 			break
 		}
 	}
+	// canonicalise: a template that is only needed as "some list / some integer / some value" is replaced by
+	// the simplest template of that type, so that one defect does not get one signature per bystander
+	for changed := true; changed; {
+		changed = false
+		var sites []func(by *term) *term
+		var nodes []*term
+		var walk func(n *term, rebuild func(*term) *term)
+		walk = func(n *term, rebuild func(*term) *term) {
+			nodes = append(nodes, n)
+			sites = append(sites, rebuild)
+			for i := range n.kids {
+				i := i
+				walk(n.kids[i], func(by *term) *term {
+					c := &term{kind: n.kind, kids: append([]*term(nil), n.kids...)}
+					c.kids[i] = by
+					return rebuild(c)
+				})
+			}
+		}
+		walk(cur, func(by *term) *term { return by })
+	search:
+		for i := 1; i < len(nodes); i++ {
+			if !isTemplate(nodes[i]) {
+				continue
+			}
+			for _, canon := range []string{"lst", "add", "pg1"} {
+				if nodes[i].kind == canon {
+					break
+				}
+				c := sites[i](defaultsOf(canon))
+				if v, fails := try(c); fails {
+					cur, curV, have, changed = c, v, true, true
+					break search
+				}
+			}
+		}
+	}
 	if !have {
 		curV = judge(cur, prefix+"m0")
 	}
@@ -490,7 +527,17 @@ func attribute(t *term, prefix string, whole *verdict) (out []engine.Failure) {
 					if n != t || 2 < t.deviations() {
 						d += from
 					}
-					add(pairSig(tp, i, k.kind, pv.kind), d)
+					inner := k.kind
+					// does it fail the same way with just any filling? then the inner form is not part of what fails
+					for _, canon := range []string{"lst", "add", "pg1"} {
+						if cv := pairVerdict(n.kind, i, canon); cv.skip == "" && cv.text != "" {
+							if !cv.ok && cv.kind == pv.kind {
+								inner = "*"
+							}
+							break
+						}
+					}
+					add(pairSig(tp, i, inner, pv.kind), d)
 					cut[k] = true
 					continue
 				}
@@ -534,6 +581,9 @@ func pairSig(outer *tmpl, i int, inner, kind string) string {
 	class := outer.holes[i].class
 	if strings.HasPrefix(class, "function-body") {
 		class += "-of-" + outer.family // what matters is who calls the function
+	}
+	if inner == "*" {
+		return fmt.Sprintf("at=%s inner=any-form kind=%s", class, kind)
 	}
 	return fmt.Sprintf("at=%s inner=%s:%s kind=%s", class, tmplByName[inner].family, inner, kind)
 }
